@@ -30,11 +30,29 @@ What is translated (anything else raises Unsupported and the function is reporte
     fixed per local.  `entry->f' is then the function-valued path `<arr>_f' applied to `entry_i'.  The result of
     the binding call itself is an oracle stream like any other external call.  A member access through any other
     non-parameter local pointer is rejected (Unsupported).
+  * ALIASES: a local pointer that is assigned exactly once in the whole function, outside any loop, and whose
+    address is never taken, stands for what it was assigned: when that is an access path (`hdr = (struct h *)
+    c->receive_buf', `p = &c->request') `hdr->size' is the path `c_receive_buf_size'; when it is a call result the
+    local names one object and `c->f' is the path `c_f'.  A store to a pointer that other paths go through
+    (`c->receive_buf = x' while `c_receive_buf_size' is in use) is rejected.
+  * spec key "object_locals": ["hdr", ...]: the spec author ASSERTS that this local pointer denotes one object for
+    the whole call, however it is obtained (out-parameter of an external call in one branch, assignment in
+    another); `hdr->size' is then the path `hdr_size'.  This is an assumption of the tie, repeated in the
+    generated file's comments.
+  * spec key "logged_calls": [labels]: for these oracle calls the arguments are recorded: argument i of the k-th
+    call is stored at `arg<i>_<label> k' (function-valued paths returned like any other stored path), so a theorem
+    can say what a callback was told.
   * further intrinsic kinds: "add" (`f(&lv, v)': lv += v), "xadd" (`f(&lv, v)': lv += v, value = old lv),
     "zero_struct" (`memset(ref, 0, sizeof(struct T))': every scalar field of the element := 0);
   * the comma operator whose left operand has no call and no assignment (the `(void) sizeof(...)' type checks of
     qbatomic.h) is its right operand.  A call with effects on the state (oracle counter, stores, binding) in the
     right operand of && / || or in a branch of ?: is rejected (it would be hoisted out of its guard).
+
+  * `do { } while (c)' with a real condition (body first, then the test), `switch' over a call-free expression
+    whose case groups each end in break/return (no fall-through between non-empty groups; it becomes an if-chain),
+    forward `goto L' to a label of an enclosing statement list from outside any loop (the code from the label on
+    is the continuation at the jump site - the `goto cleanup' idiom); a backward goto is rejected;
+    glibc's assert() in both forms (statement expression / `(void)0').
 
 Output conventions: all values are Z.  `u32 x' = x mod 2^32 etc. come from coq/C2CoqPrelude.v.
 """
@@ -72,6 +90,15 @@ def int_type(t):
         return (32, False)
     if q.endswith("*") or "(*)" in q:
         return (64, False)
+    return None
+
+
+def src_offset(n):
+    """byte offset of the start of a statement in the translation unit's main file (None when clang gives none)"""
+    b = n.get("range", {}).get("begin", {})
+    for d in (b, b.get("expansionLoc", {}), b.get("spellingLoc", {})):
+        if "offset" in d:
+            return d["offset"]
     return None
 
 
@@ -123,6 +150,7 @@ class Fn:
         self.on_break = self.on_continue = None
         self.ncalls = 0
         self.notes = []
+        self.labels = {}          # label decl id -> thunk translating the code from the label on (forward gotos)
         self.aux = []             # top-level Fixpoints of the loops, emitted in front of the function
         self.refbase = {}         # decl id of a `struct T *' local bound by a ref intrinsic -> base path name
         self.reftype = {}         # decl id -> record name
@@ -136,6 +164,27 @@ class Fn:
             self.locals[p["id"]] = v
             self.add_input(v)
         self.param_ids = {p["id"] for p in self.params}
+        # pointer locals: number of assignments (initialiser included) and whether the address is taken
+        self.ptr_assigns, self.addr_taken = {}, set()
+        self.alias, self.single = {}, set()
+        for n in walk(self.body):
+            kd = n.get("kind")
+            if kd == "VarDecl" and any("kind" in c for c in n.get("inner", [])):
+                self.ptr_assigns[n["id"]] = self.ptr_assigns.get(n["id"], 0) + 1
+            elif kd == "BinaryOperator" and n.get("opcode") == "=" or kd == "CompoundAssignOperator" or \
+                    (kd == "UnaryOperator" and n.get("opcode") in ("++", "--")):
+                t = n["inner"][0]
+                while t.get("kind") in ("ParenExpr",):
+                    t = t["inner"][0]
+                if t.get("kind") == "DeclRefExpr":
+                    i_ = t["referencedDecl"]["id"]
+                    self.ptr_assigns[i_] = self.ptr_assigns.get(i_, 0) + (1 if kd == "BinaryOperator" else 2)
+            elif kd == "UnaryOperator" and n.get("opcode") == "&":
+                t = n["inner"][0]
+                while t.get("kind") in ("ParenExpr",):
+                    t = t["inner"][0]
+                if t.get("kind") == "DeclRefExpr":
+                    self.addr_taken.add(t["referencedDecl"]["id"])
         # element references: the base path of every local bound by a ref intrinsic is fixed before translation
         for n in walk(self.body):
             if n.get("kind") != "CallExpr":
@@ -176,6 +225,8 @@ class Fn:
             return self.path_of(e["inner"][0])
         if k == "DeclRefExpr":
             rd = e["referencedDecl"]
+            if rd["id"] in self.alias:
+                return self.path_of(self.alias[rd["id"]])
             if rd["id"] in self.locals:
                 if self.locals[rd["id"]].kind == "bad":
                     raise Unsupported("use of non-integer local %s" % rd.get("name"))
@@ -190,8 +241,14 @@ class Fn:
             raise Unsupported("reference to %s %s" % (rd["kind"], rd.get("name")))
         if k == "MemberExpr":
             base = self.path_of(e["inner"][0])
-            if base[3] is not None and base[3] not in self.param_ids:
-                raise Unsupported("member access through the local pointer %s (not an element reference)" % base[0])
+            if base[3] is not None and base[3] not in self.param_ids and base[3] not in self.single and \
+                    base[0] in self.spec.get("object_locals", []):
+                note = "the local pointer %s is taken to denote one object for the whole call (object_locals in the spec)" % base[0]
+                if note not in self.notes:
+                    self.notes.append(note)
+            elif base[3] is not None and base[3] not in self.param_ids and base[3] not in self.single:
+                raise Unsupported("member access through the local pointer %s (assigned more than once, in a loop, or its "
+                                  "address is taken; not an element reference)" % base[0])
             if base[1] is not None:
                 # field of an array element: the function-valued path <array>_<field> at the element's index
                 return (base[0] + "_" + cname(e["name"]), base[1], e["type"], None)
@@ -310,6 +367,8 @@ class Fn:
             rd = e["referencedDecl"]
             if rd["kind"] == "EnumConstantDecl":
                 return self.lit(self.tu.enum_value(rd["name"]))
+            if rd["id"] in self.alias:
+                return self.expr(self.alias[rd["id"]])
             if rd["id"] in self.locals:
                 if self.locals[rd["id"]].kind == "bad":
                     raise Unsupported("use of non-integer local %s" % rd.get("name"))
@@ -542,18 +601,32 @@ class Fn:
             self.add_input(Var(cnt, "Z"))
             if cnt not in self.written:
                 self.written.append(cnt)
-            for a_ in args:            # arguments are evaluated (they may read paths) but not passed on
+            logtxt = ""
+            havoc = ""
+            for ai, a_ in enumerate(args):   # arguments are evaluated (they may read paths); recorded when asked for
+                ol = self.out_local(a_)
+                if ol is not None:
+                    # the callee may store anything into a local whose address it is given
+                    oo = self.add_input(Var("orc_%s_out%d" % (label, ai), "arr")).name
+                    havoc += "let %s := %s %s in\n" % (self.locals[ol].name, oo, cnt)
+                    continue
                 try:
-                    self.expr(a_)
+                    av = self.expr(a_)
                 except Unsupported:
-                    pass
+                    continue
+                if label in self.spec.get("logged_calls", []):
+                    an = "arg%d_%s" % (ai, label)
+                    self.add_input(Var(an, "arr"))
+                    if an not in self.written:
+                        self.written.append(an)
+                    logtxt += "let %s := upd %s %s %s in\n" % (an, an, cnt, av)
             self.ncalls += 1
             rv = "c%d_%s" % (self.ncalls, label)
             note = "calls to %s: the k-th result is (%s k) for an arbitrary stream; %s counts them " \
                    "(assumed without effect on the modelled paths)" % (name or "the function pointer " + label, orc, cnt)
             if note not in self.notes:
                 self.notes.append(note)
-            self.pre.append(("let %s := %s %s in\nlet %s := %s + 1 in\n" % (rv, orc, cnt, cnt, cnt), ""))
+            self.pre.append((logtxt + havoc + "let %s := %s %s in\nlet %s := %s + 1 in\n" % (rv, orc, cnt, cnt, cnt), ""))
             return (wrap(e["type"], rv) if int_type(e["type"]) and not self.ret_is_void_call(e) else rv), []
         raise Unsupported("call to %s (not in this spec, not an intrinsic, not listed as oracle)" % (name or "a function pointer"))
 
@@ -616,11 +689,25 @@ class Fn:
                     acc.append(("cnt_" + cname(name), "Z"))
                 if name in self.done:
                     acc.extend(self.callee_outs(self.done[name], n["inner"][1:]))
+                if (name in self.spec.get("oracle_calls", []) or (name is None and self.spec.get("oracle_indirect_calls"))):
+                    for a_ in n["inner"][1:]:
+                        ol = self.out_local(a_)
+                        if ol is not None:
+                            acc.append((self.locals[ol].name, "Z"))
+                if name in self.done:
+                    pass
                 elif name in self.spec.get("oracle_calls", []):
                     acc.append(("cnt_" + cname(name), "Z"))
+                    if cname(name) in self.spec.get("logged_calls", []):
+                        for ai in range(len(n["inner"]) - 1):
+                            acc.append(("arg%d_%s" % (ai, cname(name)), "arr"))
                 elif name is None and self.spec.get("oracle_indirect_calls"):
                     try:
-                        acc.append(("cnt_" + self.path_of(_)[0], "Z"))
+                        lb = self.path_of(_)[0]
+                        acc.append(("cnt_" + lb, "Z"))
+                        if lb in self.spec.get("logged_calls", []):
+                            for ai in range(len(n["inner"]) - 1):
+                                acc.append(("arg%d_%s" % (ai, lb), "arr"))
                     except Unsupported:
                         pass
 
@@ -662,9 +749,31 @@ class Fn:
         i = self.expr(idx)
         return "let %s := upd %s %s %s in\n%s" % (name, name, i, wrap(ty, val), k())
 
+    def pointer_local_bind(self, did, rhs):
+        """a pointer local assigned once: -> 'alias' (rhs is an access path), 'single' (some other value) or None"""
+        if self.ptr_assigns.get(did, 0) != 1 or did in self.addr_taken or self.loop_depth:
+            return None
+        t = rhs
+        while t.get("kind") in ("ParenExpr", "CStyleCastExpr") or \
+                (t.get("kind") == "ImplicitCastExpr" and t.get("castKind") in ("BitCast", "NoOp", "LValueToRValue")):
+            t = t["inner"][0]
+        if t.get("kind") in ("MemberExpr", "DeclRefExpr") or (t.get("kind") == "UnaryOperator" and t.get("opcode") == "&"):
+            try:
+                pth = self.path_of(t)
+                if pth[3] is None or pth[3] in self.param_ids:
+                    self.alias[did] = rhs
+                    return "alias"
+            except Unsupported:
+                pass
+        self.single.add(did)
+        return "single"
+
     def stmts(self, lst, k):
         if not lst:
             return k()
+        for j, s_ in enumerate(lst):
+            if s_.get("kind") == "LabelStmt" and j > 0:
+                self.labels[s_["declId"]] = (src_offset(s_), lambda j=j: self.stmts(lst[j:], k))
         return self.stmt(lst[0], lambda: self.stmts(lst[1:], k))
 
     def stmt(self, s, k):
@@ -698,6 +807,10 @@ class Fn:
                 if v.name in self.input_names:
                     v = Var(v.name + "_l", "Z")
                 init = [c for c in d.get("inner", []) if "kind" in c]
+                if init and desugar(d["type"]).endswith("*"):
+                    if self.pointer_local_bind(d["id"], init[0]) == "alias":
+                        self.locals[d["id"]] = v
+                        return go(i + 1)
                 if init:
                     val, pre = self.ev(lambda: wrap(d["type"], self.expr(init[0])))
                 else:
@@ -711,6 +824,13 @@ class Fn:
             return self.wrap_pre(pre, self.ret(val))
         if kind in ("ParenExpr", "ImplicitCastExpr", "CStyleCastExpr"):
             return self.stmt(s["inner"][0], k)
+        if kind == "BinaryOperator" and s["opcode"] == "=" and s["inner"][0].get("kind") == "DeclRefExpr" and \
+                s["inner"][0]["referencedDecl"]["id"] in self.locals and \
+                self.locals[s["inner"][0]["referencedDecl"]["id"]].kind == "Z" and \
+                desugar(s["inner"][0]["type"]).endswith("*") and \
+                s["inner"][0]["referencedDecl"]["id"] not in self.param_ids:
+            if self.pointer_local_bind(s["inner"][0]["referencedDecl"]["id"], s["inner"][1]) == "alias":
+                return k()
         if kind == "BinaryOperator" and s["opcode"] == "=":
             p = self.path_of(s["inner"][0])
             rhs = s["inner"][1]
@@ -751,7 +871,7 @@ class Fn:
             parts = [c for c in s["inner"]]
             c, th = parts[0], parts[1]
             el = parts[2] if len(parts) > 2 else None
-            escapes = ("ReturnStmt", "BreakStmt", "ContinueStmt")
+            escapes = ("ReturnStmt", "BreakStmt", "ContinueStmt", "GotoStmt")
             esc = self.contains(th, escapes, False) or (el is not None and self.contains(el, escapes, False))
             cnd, pre = self.ev(lambda: self.cond(c))
             if not esc:
@@ -783,7 +903,7 @@ class Fn:
             if c["kind"] == "IntegerLiteral" and c["value"] == "0" and \
                     not self.contains(body, ("BreakStmt", "ContinueStmt"), True):
                 return self.stmt(body, k)
-            raise Unsupported("do-while loop with a real condition")
+            return self.loop(c, None, body, k, post_test=True)
         if kind == "WhileStmt":
             return self.loop(s["inner"][0], None, s["inner"][1], k)
         if kind == "ForStmt":
@@ -793,6 +913,29 @@ class Fn:
             if init and "kind" in init:
                 return self.stmt(init, lambda: self.loop(c, inc, body, k))
             return self.loop(c, inc, body, k)
+        if kind == "LabelStmt":
+            return self.stmt(s["inner"][0], k)
+        if kind == "GotoStmt":
+            if self.loop_depth:
+                raise Unsupported("goto out of a loop")
+            th = self.labels.get(s.get("targetLabelDeclId"))
+            if th is None:
+                raise Unsupported("goto to a label that is not a later statement of an enclosing statement list")
+            if th[0] is None or src_offset(s) is None or th[0] <= src_offset(s):
+                raise Unsupported("backward goto")
+            return th[1]()
+        if kind == "SwitchStmt":
+            return self.switch(s, k)
+        if kind == "StmtExpr":
+            return self.stmt(s["inner"][0], k)
+        if kind == "UnaryOperator" and s["opcode"] == "__extension__":
+            return self.stmt(s["inner"][0], k)
+        if kind == "BinaryOperator" and s["opcode"] == ",":
+            return self.stmt(s["inner"][0], lambda: self.stmt(s["inner"][1], k))
+        if kind in ("IntegerLiteral", "DeclRefExpr", "UnaryExprOrTypeTraitExpr", "CharacterLiteral", "StringLiteral",
+                    "MemberExpr", "ArraySubscriptExpr", "ConditionalOperator") or \
+                (kind in ("BinaryOperator", "UnaryOperator") and not self.has_effects(s)):
+            return k()           # an expression statement without effects
         if kind == "BreakStmt":
             return self.on_break()
         if kind == "ContinueStmt":
@@ -832,7 +975,82 @@ class Fn:
         return ("Some %s" % body) if self.has_loop_anywhere else body
 
     # loops ------------------------------------------------------------------
-    def loop(self, c, inc, body, k):
+    def out_local(self, a):
+        """the local variable whose address the call argument `a' passes (`&x', `(void **)&x'), or None"""
+        while a.get("kind") in ("ImplicitCastExpr", "CStyleCastExpr", "ParenExpr"):
+            a = a["inner"][0]
+        if a.get("kind") == "UnaryOperator" and a.get("opcode") == "&":
+            t = a["inner"][0]
+            while t.get("kind") == "ParenExpr":
+                t = t["inner"][0]
+            if t.get("kind") == "DeclRefExpr":
+                did = t["referencedDecl"]["id"]
+                if did in self.locals and did not in self.param_ids and self.locals[did].kind == "Z":
+                    return did
+        return None
+
+    def has_effects(self, e):
+        return any(n.get("kind") in ("CallExpr", "CompoundAssignOperator") or
+                   (n.get("kind") == "BinaryOperator" and n.get("opcode") == "=") or
+                   (n.get("kind") == "UnaryOperator" and n.get("opcode") in ("++", "--")) for n in walk(e))
+
+    def switch(self, s, k):
+        """switch (e) { case a: case b: S1; break; default: S2; break; }  ->  if-chain on e"""
+        e, body = s["inner"][0], s["inner"][-1]
+        if self.has_effects(e):
+            raise Unsupported("switch over an expression with effects")
+        if body.get("kind") != "CompoundStmt":
+            raise Unsupported("switch body is not a block")
+        groups, cur = [], None                # (labels or None for default, statements)
+        for it in body.get("inner", []):
+            labels, st = [], it
+            while st.get("kind") in ("CaseStmt", "DefaultStmt"):
+                if st["kind"] == "CaseStmt":
+                    if len([c_ for c_ in st["inner"] if "kind" in c_]) != 2:
+                        raise Unsupported("case range")
+                    labels.append(st["inner"][0])
+                else:
+                    labels.append(None)
+                st = st["inner"][-1]
+            if labels:
+                if cur is not None and cur[1] and cur[1][-1].get("kind") not in ("BreakStmt", "ReturnStmt", "GotoStmt"):
+                    raise Unsupported("fall-through between non-empty case groups")
+                if cur is not None and not cur[1]:
+                    labels = cur[0] + labels
+                    groups.pop()
+                cur = (labels, [st])
+                groups.append(cur)
+            else:
+                if cur is None:
+                    raise Unsupported("statement before the first case label")
+                cur[1].append(it)
+        ity = {"qualType": "int"}
+        default, chain = None, []
+        for labels, sts in groups:
+            if sts and sts[-1].get("kind") == "BreakStmt":
+                sts = sts[:-1]
+            blk = {"kind": "CompoundStmt", "inner": sts}
+            if self.contains(blk, ("BreakStmt",), True):
+                raise Unsupported("break nested inside a case group")
+            if None in labels:
+                default = blk
+                labels = [l for l in labels if l is not None]
+                if not labels:
+                    continue
+            cnd = None
+            for l in labels:
+                t = {"kind": "BinaryOperator", "opcode": "==", "type": ity, "inner": [e, l]}
+                cnd = t if cnd is None else {"kind": "BinaryOperator", "opcode": "||", "type": ity, "inner": [cnd, t]}
+            chain.append((cnd, blk, None in [None] and blk is default))
+        node = default
+        for cnd, blk, _ in reversed(chain):
+            node = {"kind": "IfStmt", "inner": [cnd, blk] + ([node] if node is not None else [])}
+        if node is None:
+            return k()
+        # a group that is both `case x:' and `default:' was put in the chain and is the default as well: fine
+        return self.stmt(node, k)
+
+    def loop(self, c, inc, body, k, post_test=False):
         rets = self.contains(body, ("ReturnStmt",), False)
         self.has_loop = True
         acc = []
@@ -863,11 +1081,16 @@ class Fn:
         stop = ("Some (inl %s)" if rets else "Some %s") % tup
         saved = (self.on_break, self.on_continue)
         step_inc = (lambda: self.stmt(inc, lambda: again)) if inc is not None else (lambda: again)
+        if post_test:
+            # do-while: the test comes after the body (and is where `continue' goes)
+            def step_inc():
+                cnd_, pre_ = self.ev(lambda: self.cond(c))
+                return self.wrap_pre(pre_, "if %s then %s else %s" % (cnd_, again, stop))
         self.on_break = lambda: stop
         self.on_continue = step_inc
         self.loop_depth += 1
         self.loop_rets.append(rets)
-        if c is not None:
+        if c is not None and not post_test:
             cnd, pre = self.ev(lambda: self.cond(c))
         else:
             cnd, pre = "true", []
@@ -961,14 +1184,15 @@ class TU:
         return self.enums[name]
 
     def sizeof(self, tname):
+        """sizeof of a non-scalar type: asked to the C compiler (gcc -S of the file plus one initialised global)"""
         if tname not in self.sizes:
-            src = '#include "%s"\n#include <stdio.h>\nint main(void){printf("%%zu\\n", sizeof(%s));return 0;}\n' % (
-                os.path.join(self.repo, self.path), tname)
-            exe = "/tmp/c2coq_sizeof_%d" % os.getpid()
-            p = subprocess.run(["gcc", "-w", "-x", "c", "-", "-o", exe] + self.flags + ["-Dmain=c2coq_main_unused_"]
-                               if False else ["gcc", "-w", "-x", "c", "-", "-o", exe, "-c"] + self.flags,
+            src = '#include "%s"\nunsigned long c2coq_sz_0 = sizeof(%s);\n' % (os.path.join(self.repo, self.path), tname)
+            p = subprocess.run(["gcc", "-w", "-x", "c", "-", "-S", "-o", "-"] + self.flags,
                                input=src.encode(), stdout=subprocess.PIPE, stderr=subprocess.PIPE)
-            raise Unsupported("sizeof(%s) (struct sizes are not supported yet)" % tname)
+            m = re.search(r"c2coq_sz_0:\s*\n\s*\.quad\s+(\d+)", p.stdout.decode("utf-8", "replace"))
+            if p.returncode != 0 or not m:
+                raise Unsupported("sizeof(%s): the C compiler gave no value" % tname)
+            self.sizes[tname] = int(m.group(1))
         return self.sizes[tname]
 
     def record_fields(self, rname):
@@ -1008,6 +1232,10 @@ def translate_function(tu, name, spec, done):
     # canonical order (independent of the order of first use in the source): parameters in C order, then
     # the other inputs by name; stored paths by name
     f.written.sort()
+    for w_ in f.written:
+        for v_ in f.inputs:
+            if v_.name.startswith(w_ + "_") and not v_.name.endswith("_ptr") and not w_.startswith(("cnt_", "orc_")):
+                raise Unsupported("store to %s, a pointer that the path %s goes through" % (w_, v_.name))
     npar = len(f.params)
     f.inputs = f.inputs[:npar] + sorted(f.inputs[npar:], key=lambda v: v.name)
     w = list(f.written)
